@@ -149,7 +149,7 @@ Lemma melt_quote_err_quiet cfg u d req h msat mpp id w w' e :
 Proof.
   unfold request_melt_quote. destruct u; cbn [negb]; [|intros H; inversion H; reflexivity].
   destruct d; cbn [negb]; [|intros H; inversion H; reflexivity].
-  destruct (msat =? 0); [intros H; inversion H; reflexivity|].
+  destruct ((msat <=? 0) || (two63 <=? msat)); [intros H; inversion H; reflexivity|].
   destruct w as [db l m a n]. sx.
   set (internal := match same_invoice (ROk (find (fun q => mq_hash q =? h) (d_mq db))) req with Some _ => true | None => false end).
   assert (Hplan : forall (is_mpp : bool) (amount_msat qa : Z) n' wx,
